@@ -25,6 +25,14 @@ CHECKS = {
         note=PROOF_NOTE + "Modelled, not verified: torch/numpy slicing and torch.nn.functional.pad (pair order validated by correspondence); Fourier operators only through backward(forward(x)) = x.",
         technique="Coq proof (lia over regenerated index arithmetic, induction over tensor rank) + exact model/implementation correspondence",
         design="§6 C10"),
+    "C11": dict(
+        text="The per-cell boolean expressions of the three mask splitters (mask & ~acs, clearing of the protected region, input = mask & ~target, | acs; the half splitter's side assignments and region handling), the counts handed to the fill routines and the Cython kernel's loop condition are regenerated on every run. "
+             "Theorems, cell by cell and for every mask / ACS / protected region / fill output inside the eligible set: union = mask, intersection = empty (exactly the ACS when kept), sampled protected cells stay in the input - for the uniform and Gaussian splitters, and for the half splitter with ANY side predicate (all four directions); "
+             "the Gaussian request need = count + 1 never exceeds the eligible cells (so the rejection loop can end, with C04's kernel contract) and the uniform request is floor(eligible * ratio) <= eligible; the per-sample seed is a function of file name and slice. "
+             "Tied by exact correspondence through the real splitter modules (fill output fed back as the oracle) and by driving the real fill routines against their contract.",
+        note=PROOF_NOTE + "Modelled, not verified: the fill routines (libc rand / numpy choice) behind a contract; torch slice assignment for the region; that the kernel's candidate stream eventually hits every eligible cell (fairness) is not proved - termination is additionally watched by a 3 s alarm.",
+        technique="Coq proof (exhaustive boolean case analysis over regenerated per-cell expressions; lia over regenerated counts) + exact correspondence through the real splitters and fill routines",
+        design="§6 C11"),
     "C01": dict(
         text="roll_one_dim / fftshift / ifftshift arithmetic is regenerated from the source on every run and proved to be the cyclic rotation by n/2 resp. (n+1)/2: mutual inverses and equal to the reference shift for every length (1, odd, even), "
              "and in the N-d index model for every rank, shape and axis list. The operation sequences of fft2 / ifft2 are regenerated and proved to be shift-transform-shift wrapped by the layout views and mutual inverses for all 8 flag settings, given the contract of torch.fft. "
